@@ -210,7 +210,7 @@ def case_module(case, ctx_prelude=None, extern_decl=None):
             L.append("        " + x)
         for x in (ctx_prelude or []):
             if x not in inner:
-                L.append("        " + x)
+                L.append("        " + x.replace("@E@", case.get("ename", "E")))
         d0 = len(L)
         for x in decl_lines(case, ename=case.get("ename", "E")):
             L.append("        " + x)
@@ -234,7 +234,7 @@ def decl_module(case, ctx_prelude=None):
         L.append("        " + x)
     for x in (ctx_prelude or []):
         if x not in inner:
-            L.append("        " + x)
+            L.append("        " + x.replace("@E@", case.get("ename", "E")))
     d0 = len(L)
     for x in decl_lines(case, ename=case.get("ename", "E")):
         L.append("        " + x)
